@@ -36,8 +36,8 @@ CHECKS = {
          "The width decision is a function of (k, the stored k-mers); enumerating every k with families that do and do not fit in 64 bits, and running every subcommand plus merges in both orders on the saved file, decides width independence; stored fields are read back with an independent decoder.",
          "Model stands in for the in-memory data; ska lo at k=33/35 is exercised under C17.", "DESIGN.md §5 C09"),
  "C10": ("model_checking", "explicit-state BFS (depth-bounded, full-content state de-duplication) with the real merge/delete/weed/filter/reload as transitions; invariant = every observer agrees with a reference model that has no hidden state",
-         "The state carries the hidden fields, the model does not: any dependence of a later align/map/distance/nk on history shows up as an observer disagreement in some reached state. Histories to depth 3 (quick) / 5 (thorough) from three start tables, ~140 actions per state.",
-         "Depth-bounded, one k (7) and three start tables; canonicalisation guarded by CLI re-execution of the longest paths (traces_validated_against_impl).", "DESIGN.md §5 C10"),
+         "The state carries the hidden fields, the model does not: any dependence of a later align/map/distance/nk on history shows up as an observer disagreement in some reached state. Histories to depth 3 (quick) / 5 (thorough) at k=7 and depth 2 / 3 at k=33 (128-bit files), from three start tables each, ~140 actions per state.",
+         "Depth-bounded, two k (7 and 33), three start tables each; canonicalisation guarded by CLI re-execution of the longest paths (traces_validated_against_impl).", "DESIGN.md §5 C10"),
  "C11": ("model_checking", "explicit-state interleaving model of the only racy structure (DashMap neighbour vectors in skalo::build_graph) with conformance replay in both directions, plus an exhaustive configuration sweep (thread counts x sample counts x subcommands x input kinds x hash seeds) on the real CLI",
          "Schedules: the model enumerates every interleaving of the per-row push operations for 2..4 workers and yields the set R of reachable final graphs; every element of R is forced onto the real graph and run through the real identify_good_kmers/build_variant_groups (same, planted result required), real runs with 1..8 threads must land inside R, and 1-thread runs on permuted rows must equal the model's sequential graph. Configurations: every subcommand that takes --threads, with .skf and sequence-file input, on both sides of every step of the 10-samples-per-thread rule (incl. split depth 3 and 4), thread counts 1..16, two hash seeds, against the 1-thread result.",
          "rayon's own scheduling is not explored (no shared state outside skalo; the sweep would show a difference); DashMap entry operations are taken as atomic; hash seeds are a declared finite set.", "DESIGN.md §5 C11"),
